@@ -35,3 +35,102 @@ def u1_arith(text: bytes, pos: int) -> bool:
     post: _
     """
     return run("u1_arith", _u1_body, dict(text=text, pos=pos))
+
+
+# ------------------------------------------------------------------ U2: whole parser, templates
+from engine.side import notrace
+from harness import pcommon as P
+
+PREFIXES = [
+    b"",
+    b'require ["fileinto", "copy"];\n',
+    b"# comment \xc3\xa9\xc3\xa9 \xe2\x82\xac\n/* bracket\n comment */\nkeep;\n",
+    b'require "reject";\nif header :is "Subject" "\xc3\xa9t\xc3\xa9" {\n    reject text:\nline \xe2\x82\xac\n.\n;\n}\n',
+    b'if anyof (true,\n   false) {\n\tstop; # \xc3\xa9\n}\n',
+    b'if size :over 1K { keep; }\nelsif exists "a" { discard; }\nelse { stop; }\n',
+]
+# (text before the offending token on its line, offending token, lexical?)
+OFFENDERS = [
+    (b"", b"!", True), (b"keep; ", b"\xc3\xa9x", True), (b"", b"@@", True),
+    (b"", b"foo", False), (b"keep; ", b"bar_1", False),
+    (b"", b"vacation", False), (b"", b"setflag", False), (b"if ", b"envelope", False),
+    (b"keep ", b":flags", False), (b'if header ', b":regex", False), (b'if header ', b":count", False),
+    (b"redirect ", b":foo", False), (b"if header ", b":over", False), (b"discard ", b":copy", False),
+    (b"keep ", b'"a"', False), (b"stop ", b"12", False), (b'redirect "a" ', b'"b"', False),
+    (b'if exists "a" ', b'"b"', False), (b"discard ", b"3K", False),
+    (b"", b"true", False), (b"", b"header", False), (b"if ", b"keep", False), (b"if not ", b"stop", False),
+    (b"if anyof (true, ", b"discard", False),
+]
+SUFFIXES = [b"", b' "x";\nkeep;\n', b"\n}\n!!\n", b' :is "z" { stop; }']
+NP = len(PREFIXES)
+NO = len(OFFENDERS)
+U2_PREFIX = int(os.environ.get("U2_PREFIX", "0"))
+
+
+def reconfigure():
+    global U2_PREFIX, MAXLEN
+    U2_PREFIX = int(os.environ.get("U2_PREFIX", "0"))
+    MAXLEN = int(os.environ.get("C18_MAXLEN", "5"))
+
+
+def _native_u2(pi, nl, sp, crlf, oi):
+    eol = b"\r\n" if crlf else b"\n"
+    src = PREFIXES[pi]
+    if crlf and b"text:" in src:
+        # sievelib's text: rule does not take CRLF line ends (known finding of C01): keep the
+        # prefix valid for the parser under test
+        src = src.replace(b"reject text:\nline \xe2\x82\xac\n.\n;", b'reject "line \xe2\x82\xac";')
+    prefix = src.replace(b"\n", eol)
+    pre, tok, lexical = OFFENDERS[oi]
+    head = prefix + eol * nl + b" " * sp + pre
+    want_line = 1 + head.count(b"\n")
+    want_col = sp + len(pre) + 1
+    seen = None
+    for sfx in SUFFIXES:
+        text = head + tok + sfx.replace(b"\n", eol)
+        p = Parser()
+        try:
+            v = p.parse(text)
+        except Exception as e:
+            raise Violation("C18/raises/%s" % type(e).__name__, {"script": text.decode("utf-8", "replace")})
+        shown = text.decode("utf-8", "backslashreplace")
+        if v is not False:
+            raise Violation("C18/offender-accepted/%s" % tok.decode("utf-8", "replace"), {"script": shown})
+        m = re.match(r"line (\d+): ", p.error)
+        line = int(m.group(1)) if m else None
+        ep = p.error_pos
+        kind = "lexical" if lexical else tok.decode("ascii")
+        if line != want_line or ep[0] != want_line:
+            raise Violation("C18/line/%s" % kind, {"script": shown, "error": p.error, "error_pos": list(ep),
+                                                   "want_line": want_line})
+        if ep[1] != want_col:
+            raise Violation("C18/column/%s" % kind, {"script": shown, "error_pos": list(ep), "want_col": want_col})
+        if not lexical and ep[2] != len(tok):
+            raise Violation("C18/length/%s" % kind, {"script": shown, "error_pos": list(ep), "want_len": len(tok)})
+        cur = (p.error if not lexical else None, tuple(ep[:2]))
+        if seen is not None and cur != seen:
+            raise Violation("C18/depends-on-suffix/%s" % kind, {"script": shown, "a": repr(seen), "b": repr(cur)})
+        seen = cur
+    return (head + tok).decode("utf-8", "backslashreplace")
+
+
+import re  # noqa: E402
+
+
+def _u2_body(info, nl, sp, crlf, tok):
+    cn = P.decode(nl, 4)
+    cs = P.decode(sp, 4)
+    cc = P.decode(crlf, 2)
+    ct = P.decode(tok, NO)
+    info["concrete"] = dict(nl=cn, sp=cs, crlf=cc, tok=ct)
+    info["steps"] = 4
+    info["show"] = notrace(_native_u2, U2_PREFIX, cn, cs, cc, ct)
+    info["cls"] = "u2/%d/%d/%d" % (U2_PREFIX, ct, cc)
+
+
+def u2(nl: int, sp: int, crlf: int, tok: int) -> bool:
+    """
+    pre: 0 <= nl < 4 and 0 <= sp < 4 and 0 <= crlf < 2 and 0 <= tok < NO
+    post: _
+    """
+    return run("u2", _u2_body, dict(nl=nl, sp=sp, crlf=crlf, tok=tok))
